@@ -235,6 +235,44 @@ func (s *Sim) recoverFrom(f *FrozenState) {
 	s.recSteps = s.steps
 	s.faults["core_restart"]++
 	s.compareRecovered(f)
+	// the old core had asked the shim to replace these placeholders; the shim finishes what it was asked to do and
+	// reports it to the new core, which knows nothing about a replacement: a plain removal, booked everywhere
+	for _, k := range sortedKeys(f.Allocs) {
+		m := f.Allocs[k]
+		if !m.Placeholder || m.Status != stReleasing || m.RelType != "PLACEHOLDER_REPLACED" || !r.Bool(0.6) {
+			continue
+		}
+		cur := sh.Allocs[k]
+		if cur == nil || cur.Status != stBound || s.post == nil {
+			continue
+		}
+		pre := s.post
+		pa := pre.Apps[m.App]
+		if pa == nil || pa.Allocs[k] == nil || pa.Allocs[k].ReleaseKey != "" {
+			continue
+		}
+		res := pa.Allocs[k].Res
+		node := pa.Allocs[k].Node
+		s.faults["late_swap_confirmation_after_restart"]++
+		s.doStep(Op{Kind: "release", Key: k, AppID: m.App, Type: "PLACEHOLDER_REPLACED", Fault: "recovery_late_confirm"})
+		p := s.post
+		if a := p.Apps[m.App]; a != nil && a.Allocs[k] != nil {
+			s.violate("C12", "late-confirmation-ignored", "", "recovery: the shim released placeholder %s (replacement requested by the old core) but the new core still lists it", k)
+			continue
+		}
+		for _, qp := range ancestors(pa.Queue) {
+			if pq, q := pre.Queues[qp], p.Queues[qp]; pq != nil && q != nil && !q.Alloc.Eq(pq.Alloc.Sub(res)) {
+				s.violate("C12", "late-confirmation-books", "queue", "recovery: releasing placeholder %s %s took queue %s from %s to %s", k, res, qp, pq.Alloc, q.Alloc)
+				break
+			}
+		}
+		if pn, n := pre.Nodes[node], p.Nodes[node]; pn != nil && n != nil && !n.Alloc.Eq(pn.Alloc.Sub(res)) {
+			s.violate("C12", "late-confirmation-books", "node", "recovery: releasing placeholder %s %s took node %s from %s to %s", k, res, node, pn.Alloc, n.Alloc)
+		}
+		if a := p.Apps[m.App]; a != nil && !a.PhAlloc.Eq(pa.PhAlloc.Sub(res)) {
+			s.violate("C12", "late-confirmation-books", "application", "recovery: releasing placeholder %s %s took the placeholder total of %s from %s to %s", k, res, m.App, pa.PhAlloc, a.PhAlloc)
+		}
+	}
 }
 
 // compareRecovered: the new core accepted everything and rebuilt the same totals.
